@@ -26,6 +26,16 @@ theorem C18_cdata_roundtrip (inner : List B) : cdataDecode (cdataWrap' inner) = 
 theorem C18_strip_whitespace (p root : List B) (hp : ∀ b ∈ p, isWs b = true) (hr : startsCI mjmlNeedle root = true) :
     strip (p ++ root) = root := strip_ws p root hp hr
 
+/-- **the whole prolog is ignored**: any sequence of white space and comments in front of the root — whatever the comments
+    contain (quotes, angle brackets, the text `<mjml`, bodies beginning with `>` or `->`), as long as each ends at its own
+    `-->` — is removed and the document starts at the root element -/
+theorem C18_prolog_ignored (p root : List B) (hp : Prolog p) (hr : startsCI mjmlNeedle root = true) :
+    strip (p ++ root) = root := strip_prolog p root hp hr
+
+/-- non-vacuity: `<!--<mjml>-->` followed by a newline is a prolog (the shape that made the parser fail before 51f397d) -/
+example : Prolog ([60, 33, 45, 45] ++ [60, 109, 106, 109, 108, 62] ++ [45, 45, 62] ++ ([10] ++ [])) :=
+  .comment [60, 109, 106, 109, 108, 62] _ (closesAtEnd_of_B _ (by decide)) (.ws 10 [] (by decide) .nil)
+
 /-- Regenerated fact: the entity pre-pass consists of `escapeAttributeAmpersands` and plain `strings.ReplaceAll` steps whose
     search strings all start with `&` and none of which is one of XML's own escapes (&lt; &gt; &quot; &apos; &amp;) — those are
     decoded exactly once, by the XML layer -/
